@@ -483,9 +483,29 @@ fn run_sig(parts: &[f64], extra: u64) -> u64 {
 }
 
 /// Single-unit adversarial run, driven exactly like LocomotiveSimulation::step.
+/// C01 only: a battery that starts outside its SOC window (valid: e.g. the window was narrowed after charging);
+/// the ledger clauses do not depend on the window
+fn start_outside_soc_window(ctx: &mut Ctx, loco: &mut Locomotive, rng: &mut Rng) {
+    if let Some(r) = loco.reversible_energy_storage_mut() {
+        let (lo, hi) = (r.min_soc.value, r.max_soc.value);
+        let above = hi < 0.995 && (rng.chance(0.6) || lo < 0.01);
+        if above {
+            r.state.soc = uc::R * (hi + (1.0 - hi) * rng.range(0.1, 1.0));
+        } else if lo >= 0.01 {
+            r.state.soc = uc::R * (lo * rng.range(0.05, 0.9));
+        } else {
+            return;
+        }
+        ctx.count("obs.batteries_starting_outside_their_soc_window");
+    }
+}
+
 pub fn run_unit(ctx: &mut Ctx, rng: &mut Rng, steps: usize) {
     let kind = if rng.chance(0.5) { Kind::Conv } else { Kind::Bel };
     let mut loco = gp::locomotive(rng, kind);
+    if ctx.prop == "C01" && rng.chance(0.1) {
+        start_outside_soc_window(ctx, &mut loco, rng);
+    }
     let dt_max = match &loco.loco_type {
         PowertrainType::BatteryElectricLoco(b) => gp::res_dt_max(&b.res),
         _ => 10.0,
@@ -570,6 +590,22 @@ fn publ_edrv_rating(l: &Locomotive) -> f64 {
 pub fn run_consist(ctx: &mut Ctx, rng: &mut Rng, steps: usize) {
     let n = rng.usize(1, 8);
     let (mut con, kinds) = gp::consist(rng, n);
+    if ctx.prop == "C01" {
+        if rng.chance(0.12) {
+            // a consist first built with other units and then given its real ones (the fleet-editing path of
+            // the Python API: set_loco_vec); every ledger must describe the units it holds now
+            let pdct = con.pdct.clone();
+            let placeholder = if rng.chance(0.5) { Locomotive::default() } else { Locomotive::default_battery_electric_loco() };
+            let mut rebuilt = Consist::new(vec![placeholder; rng.usize(1, 3)], None, pdct);
+            rebuilt.set_loco_vec(con.loco_vec.clone());
+            con = rebuilt;
+            ctx.count("obs.consists_re-equipped_through_set_loco_vec");
+        }
+        if rng.chance(0.1) {
+            let k = rng.usize(0, n - 1);
+            start_outside_soc_window(ctx, &mut con.loco_vec[k], rng);
+        }
+    }
     con.set_pwr_dyn_brake_max(); // what init() does after loading
     let greedy = matches!(con.pdct, PowerDistributionControlType::RESGreedy(_));
     let mut dt_max: f64 = 10.0;
